@@ -13,6 +13,8 @@ pub enum Ty {
     AStr,
     AAStr,
     Cmd,
+    /// process_result
+    Res,
 }
 
 impl Ty {
@@ -24,6 +26,7 @@ impl Ty {
             Ty::AStr => "astr",
             Ty::AAStr => "aastr",
             Ty::Cmd => "cmd",
+            Ty::Res => "res",
         }
     }
     fn parse(s: &str) -> Ty {
@@ -33,6 +36,7 @@ impl Ty {
             "astr" => Ty::AStr,
             "aastr" => Ty::AAStr,
             "cmd" => Ty::Cmd,
+            "res" => Ty::Res,
             _ => Ty::Str,
         }
     }
@@ -426,6 +430,12 @@ pub struct Gen {
     pub use_nested: bool,
     pub big_strings: bool,
     pub shadowing: bool,
+    /// programs may call read_line("") (the harness feeds a simulated stdin)
+    pub use_stdin: bool,
+    /// programs may run commands (the harness runs them on the simulated host)
+    pub use_run: bool,
+    /// the configured command the current idiom runs
+    run_var: Option<String>,
 }
 
 fn ex(ty: Ty, k: EK) -> Ex {
@@ -454,6 +464,8 @@ impl Gen {
         let use_nested = r.chance(60);
         let big_strings = r.chance(55);
         let shadowing = r.chance(40);
+        let use_stdin = r.chance(25);
+        let use_run = use_cmd && r.chance(50);
         let budget = r.range(15, 70) as i32;
         Gen {
             r,
@@ -468,6 +480,9 @@ impl Gen {
             use_nested,
             big_strings,
             shadowing,
+            use_stdin,
+            use_run,
+            run_var: None,
         }
     }
     fn fresh(&mut self, p: &str) -> String {
@@ -577,6 +592,19 @@ impl Gen {
         }
         if c < 10 {
             return ex(Ty::Str, EK::Str(self.lit_string()));
+        }
+        if self.use_stdin && c < 14 {
+            // a fresh string allocated in the frame arena by the platform layer
+            return ex(Ty::Str, EK::Builtin("read_line".into(), vec![ex(Ty::Str, EK::Str(String::new()))]));
+        }
+        if self.use_run && c < 26 {
+            let rs = self.vars(Ty::Res);
+            if !rs.is_empty() {
+                // stdout()/stderr()/exit_code() are dynamic (string, number or null): to_string makes a string
+                let r = var(Ty::Res, &self.r.pick(&rs));
+                let m = self.r.pick(&["stdout", "stderr", "exit_code", "success"]);
+                return ex(Ty::Str, EK::Builtin("to_string".into(), vec![method(Ty::Str, r, m, vec![])]));
+            }
         }
         if c < 30 && !vs.is_empty() {
             return var(Ty::Str, &self.r.pick(&vs));
@@ -768,6 +796,10 @@ impl Gen {
         if self.use_cmd {
             ts.push(Ty::Cmd);
         }
+        if self.use_run {
+            ts.push(Ty::Res);
+            ts.push(Ty::Res);
+        }
         self.r.pick(&ts)
     }
     pub fn expr(&mut self, t: Ty, d: u32) -> Ex {
@@ -778,7 +810,22 @@ impl Gen {
             Ty::AStr => self.astr(d),
             Ty::AAStr => self.aastr(d),
             Ty::Cmd => self.cmd(d),
+            Ty::Res => self.res(d),
         }
+    }
+    fn res(&mut self, d: u32) -> Ex {
+        let vs = self.vars(Ty::Res);
+        if !vs.is_empty() && self.r.chance(50) {
+            return var(Ty::Res, &self.r.pick(&vs));
+        }
+        let fs = self.fns(Ty::Res);
+        if !fs.is_empty() && d < 2 && self.r.chance(40) {
+            let f = self.r.pick(&fs);
+            return self.call(&f, d);
+        }
+        // run a freshly configured command: both streams captured so the accessors return strings
+        let c = self.cmd(d + 1);
+        method(Ty::Res, c, "run", vec![])
     }
     fn call(&mut self, f: &FuncSig, d: u32) -> Ex {
         let args = f.params.clone().into_iter().map(|t| self.expr(t, d + 1)).collect();
@@ -888,10 +935,13 @@ impl Gen {
             if !cm.is_empty() {
                 let v = var(Ty::Cmd, &self.r.pick(&cm));
                 let e = self.str(0);
-                let (m, args) = match self.r.below(4) {
+                let (m, args) = match self.r.below(7) {
                     0 => ("arg", vec![e]),
                     1 => ("env", vec![ex(Ty::Str, EK::Str("K".into())), e]),
                     2 => ("cwd", vec![e]),
+                    3 => ("stdout_capture", vec![]),
+                    4 => ("stderr_capture", vec![]),
+                    5 => ("stdin_null", vec![]),
                     _ => ("stdin_text", vec![e]),
                 };
                 out.push(St::Expr(method(Ty::Num, v, m, args)));
@@ -953,12 +1003,18 @@ impl Gen {
                 if self.use_cmd {
                     ts.push(Ty::Cmd);
                 }
+                if self.use_run {
+                    ts.push(Ty::Res);
+                }
                 self.r.pick(&ts)
             })
             .collect();
         let mut rts = vec![Ty::Str, Ty::Str, Ty::Str, Ty::AStr, Ty::AStr, Ty::Num, Ty::AAStr];
         if self.use_cmd {
             rts.push(Ty::Cmd);
+        }
+        if self.use_run {
+            rts.push(Ty::Res);
         }
         let ret = self.r.pick(&rts);
         let pnames: Vec<String> = params.iter().map(|_| self.fresh("p")).collect();
@@ -1015,6 +1071,205 @@ impl Gen {
         St::Func { name, params: vec![n, acc], body }
     }
 
+    /// A value of type `t` that is certainly computed at run time (lives in frame or pool memory).
+    fn fresh_val(&mut self, t: Ty) -> Ex {
+        match t {
+            Ty::Str => {
+                let l = self.str(2);
+                let lit = ex(Ty::Str, EK::Str(self.lit_string()));
+                bin(Ty::Str, l, "add", lit)
+            }
+            Ty::AStr => {
+                let n = self.r.range(1, 3);
+                ex(Ty::AStr, EK::Arr((0..n).map(|_| self.fresh_val(Ty::Str)).collect()))
+            }
+            Ty::AAStr => {
+                let a = self.fresh_val(Ty::AStr);
+                let b = self.fresh_val(Ty::AStr);
+                ex(Ty::AAStr, EK::Arr(vec![a, b]))
+            }
+            Ty::Cmd => {
+                let s = self.fresh_val(Ty::Str);
+                ex(Ty::Cmd, EK::Builtin("command".into(), vec![s]))
+            }
+            Ty::Res => {
+                let c = match &self.run_var {
+                    Some(k) => var(Ty::Cmd, k),
+                    None => self.fresh_val(Ty::Cmd),
+                };
+                method(Ty::Res, c, "run", vec![])
+            }
+            other => self.expr(other, 1),
+        }
+    }
+    fn storable(&mut self) -> Ty {
+        let mut ts = vec![Ty::Str, Ty::Str, Ty::AStr, Ty::AStr, Ty::AAStr];
+        if self.use_cmd {
+            ts.push(Ty::Cmd);
+        }
+        if self.use_run {
+            ts.push(Ty::Res);
+            ts.push(Ty::Res);
+        }
+        self.r.pick(&ts)
+    }
+    /// Prints everything observable about a variable.
+    fn observe(&mut self, t: Ty, name: &str) -> St {
+        let v = var(t, name);
+        match t {
+            Ty::Res => {
+                let acc = |m: &str| ex(Ty::Str, EK::Builtin("to_string".into(), vec![method(Ty::Str, v.clone(), m, vec![])]));
+                St::Shout(bin(Ty::Str, bin(Ty::Str, acc("stdout"), "add", acc("stderr")), "add", acc("exit_code")))
+            }
+            _ => St::Shout(v),
+        }
+    }
+    /// Allocates and frees frame memory and pool slots.
+    fn churn(&mut self) -> St {
+        let a = self.fresh("t");
+        let b = self.fresh("t");
+        let e1 = self.fresh_val(Ty::Str);
+        let e2 = self.fresh_val(Ty::Str);
+        St::Block(vec![St::Make(a.clone(), e1), St::Make(b, e2), St::Assign(a, ex(Ty::Str, EK::Str("x".into())))])
+    }
+
+    /// The shapes the property is about, instantiated for a random storable type: a value is stored
+    /// (variable, element, parameter, return value, captured variable), memory is reclaimed
+    /// (end of a loop iteration, return from a call, a slot going back to the pool), then it is read.
+    fn idiom(&mut self, out: &mut Vec<St>) {
+        let t = self.storable();
+        let v = self.fresh("v");
+        if t == Ty::Res {
+            // results only own strings when the streams are captured: run a configured command
+            let c = self.fresh("k");
+            let prog = self.fresh_val(Ty::Str);
+            out.push(St::Make(c.clone(), ex(Ty::Cmd, EK::Builtin("command".into(), vec![prog]))));
+            out.push(St::Expr(method(Ty::Num, var(Ty::Cmd, &c), "stdout_capture", vec![])));
+            out.push(St::Expr(method(Ty::Num, var(Ty::Cmd, &c), "stderr_capture", vec![])));
+            if self.r.chance(50) {
+                let text = self.fresh_val(Ty::Str);
+                out.push(St::Expr(method(Ty::Num, var(Ty::Cmd, &c), "stdin_text", vec![text])));
+            }
+            self.scopes.last_mut().unwrap().push((c.clone(), Ty::Cmd));
+            self.run_var = Some(c);
+        } else {
+            self.run_var = None;
+        }
+        match self.r.below(7) {
+            0 => {
+                // assigned inside a loop body, read after the loop
+                let first = self.fresh_val(t);
+                out.push(St::Make(v.clone(), first));
+                self.scopes.last_mut().unwrap().push((v.clone(), t));
+                let counter = self.fresh("c");
+                let e = self.fresh_val(t);
+                let mut body = vec![St::Assign(v.clone(), e)];
+                if self.r.chance(50) {
+                    body.push(self.churn());
+                }
+                out.push(St::Loop { counter, n: self.r.range(1, 3) as u32, body });
+                out.push(self.churn());
+                out.push(self.observe(t, &v));
+            }
+            1 => {
+                // returned from a function (fresh, or through a local)
+                let f = self.fresh("f");
+                let e = self.fresh_val(t);
+                let body = if self.r.chance(50) {
+                    let l = self.fresh("v");
+                    vec![St::Make(l.clone(), e), self.churn(), St::Return(Some(var(t, &l)))]
+                } else {
+                    vec![St::Return(Some(e))]
+                };
+                out.push(St::Func { name: f.clone(), params: vec![], body });
+                out.push(St::Make(v.clone(), ex(t, EK::Call(f.clone(), vec![]))));
+                self.scopes.last_mut().unwrap().push((v.clone(), t));
+                out.push(St::Expr(ex(t, EK::Call(f, vec![]))));
+                out.push(self.churn());
+                out.push(self.observe(t, &v));
+            }
+            2 => {
+                // an array parameter grown inside a loop of the callee
+                let t = if self.r.chance(70) { Ty::AStr } else { Ty::AAStr };
+                let (f, p) = (self.fresh("f"), self.fresh("p"));
+                let elem = if t == Ty::AStr { self.fresh_val(Ty::Str) } else { self.fresh_val(Ty::AStr) };
+                let counter = self.fresh("c");
+                let push = St::Expr(method(Ty::Num, var(t, &p), "push", vec![elem]));
+                let body = vec![St::Loop { counter, n: self.r.range(2, 4) as u32, body: vec![push] }, St::Return(Some(var(t, &p)))];
+                out.push(St::Func { name: f.clone(), params: vec![p], body });
+                let arg = self.fresh_val(t);
+                out.push(St::Make(v.clone(), ex(t, EK::Call(f, vec![arg]))));
+                self.scopes.last_mut().unwrap().push((v.clone(), t));
+                out.push(self.observe(t, &v));
+            }
+            3 => {
+                // elements assigned and pushed inside a loop
+                let init = self.fresh_val(Ty::AStr);
+                out.push(St::Make(v.clone(), init));
+                self.scopes.last_mut().unwrap().push((v.clone(), Ty::AStr));
+                let counter = self.fresh("c");
+                let (e1, e2) = (self.fresh_val(Ty::Str), self.fresh_val(Ty::Str));
+                let body = vec![
+                    St::AssignIndex(index(Ty::Str, var(Ty::AStr, &v), num(0.0)), e1),
+                    St::Expr(method(Ty::Num, var(Ty::AStr, &v), "push", vec![e2])),
+                ];
+                out.push(St::Loop { counter, n: self.r.range(1, 3) as u32, body });
+                out.push(self.churn());
+                out.push(St::Shout(var(Ty::AStr, &v)));
+            }
+            4 => {
+                // pushed to a captured array by a function called in a loop
+                let init = self.fresh_val(Ty::AStr);
+                out.push(St::Make(v.clone(), init));
+                self.scopes.last_mut().unwrap().push((v.clone(), Ty::AStr));
+                let (f, q) = (self.fresh("f"), self.fresh("p"));
+                let pushed = bin(Ty::Str, var(Ty::Str, &q), "add", ex(Ty::Str, EK::Str("!".into())));
+                let body = vec![
+                    St::Expr(method(Ty::Num, var(Ty::AStr, &v), "push", vec![pushed])),
+                    St::Return(Some(method(Ty::Num, var(Ty::AStr, &v), "len", vec![]))),
+                ];
+                out.push(St::Func { name: f.clone(), params: vec![q], body });
+                let counter = self.fresh("c");
+                let arg = self.fresh_val(Ty::Str);
+                out.push(St::Loop { counter, n: self.r.range(1, 3) as u32, body: vec![St::Expr(ex(Ty::Num, EK::Call(f, vec![arg])))] });
+                out.push(St::Shout(var(Ty::AStr, &v)));
+            }
+            5 => {
+                // the callee reassigns a captured variable while the caller holds an evaluated operand
+                let init = self.fresh_val(Ty::Str);
+                out.push(St::Make(v.clone(), init));
+                self.scopes.last_mut().unwrap().push((v.clone(), Ty::Str));
+                let f = self.fresh("f");
+                let e = self.fresh_val(Ty::Str);
+                out.push(St::Func {
+                    name: f.clone(),
+                    params: vec![],
+                    body: vec![St::Assign(v.clone(), e), St::Return(Some(ex(Ty::Str, EK::Str("!".into()))))],
+                });
+                let call = ex(Ty::Str, EK::Call(f, vec![]));
+                let held = var(Ty::Str, &v);
+                out.push(match self.r.below(3) {
+                    0 => St::Shout(bin(Ty::Str, held, "add", call)),
+                    1 => St::Shout(ex(Ty::AStr, EK::Arr(vec![held, call]))),
+                    _ => St::Shout(method(Ty::Str, held, "replace", vec![ex(Ty::Str, EK::Str(",".into())), call])),
+                });
+                out.push(St::Shout(var(Ty::Str, &v)));
+            }
+            _ => {
+                // stored in an outer variable from inside a function called from a loop, read later
+                let first = self.fresh_val(t);
+                out.push(St::Make(v.clone(), first));
+                self.scopes.last_mut().unwrap().push((v.clone(), t));
+                let f = self.fresh("f");
+                let e = self.fresh_val(t);
+                out.push(St::Func { name: f.clone(), params: vec![], body: vec![St::Assign(v.clone(), e), St::Return(Some(num(1.0)))] });
+                let counter = self.fresh("c");
+                out.push(St::Loop { counter, n: 2, body: vec![St::Expr(ex(Ty::Num, EK::Call(f, vec![]))), self.churn()] });
+                out.push(self.observe(t, &v));
+            }
+        }
+    }
+
     pub fn program(&mut self) -> Vec<St> {
         let mut out = vec![];
         // globals, then functions, then body: a function may read a captured variable only if every
@@ -1030,8 +1285,18 @@ impl Gen {
             let f = if self.r.chance(20) { self.rec_func() } else { self.func() };
             out.push(f);
         }
-        for _ in 0..self.r.range(3, 10) {
-            self.stmt(&mut out);
+        let idioms = if self.r.chance(55) { self.r.range(1, 3) } else { 0 };
+        let body = self.r.range(3, 10);
+        let mut at: Vec<u64> = (0..idioms).map(|_| self.r.below(body + 1)).collect();
+        at.sort_unstable();
+        for k in 0..=body {
+            while at.first() == Some(&k) {
+                at.remove(0);
+                self.idiom(&mut out);
+            }
+            if k < body {
+                self.stmt(&mut out);
+            }
         }
         // every global is observed at the end
         let names = self.all_vars();
@@ -1055,6 +1320,7 @@ fn leaf(t: Ty) -> Ex {
         Ty::AStr => ex(t, EK::Arr(vec![s()])),
         Ty::AAStr => ex(t, EK::Arr(vec![ex(Ty::AStr, EK::Arr(vec![s()]))])),
         Ty::Cmd => ex(t, EK::Builtin("command".into(), vec![s()])),
+        Ty::Res => method(t, ex(Ty::Cmd, EK::Builtin("command".into(), vec![s()])), "run", vec![]),
     }
 }
 
